@@ -583,7 +583,7 @@ func (d *driver) decTwice(out *bufio.Writer, id string, toks []string) {
 		return
 	}
 	if msg, _ := guarded(func() error { return bc.Decode(bytes.NewBuffer(first)) }); msg != "" {
-		fmt.Fprintf(out, "ERR %s unsupported first decode failed: %s\n", id, oneline(msg))
+		fmt.Fprintf(out, "ERR %s inapplicable first decode failed: %s\n", id, oneline(msg))
 		return
 	}
 	buf := bytes.NewBuffer(second)
